@@ -90,6 +90,23 @@ def _loop_insensitive(prog, fi: FuncInfo, loop: ast.For) -> Optional[str]:
     return "body only performs commutative updates / constant early returns; no value outlives the loop"
 
 
+def _key_is_injective(key: ast.AST) -> bool:
+    """Reviewed forms of sort keys that identify an element: the element itself / its text, a class by (module, name) or
+    qualified name, an enum member by name or value."""
+    if isinstance(key, ast.Name) and key.id in ("str", "repr"):
+        return True
+    if isinstance(key, ast.Lambda) and len(key.args.args) == 1:
+        v = key.args.args[0].arg
+        body = key.body
+        parts = [unparse(x) for x in (body.elts if isinstance(body, ast.Tuple) else [body])]
+        ident = {v, f"str({v})", f"{v}.__qualname__", f"{v}.name", f"{v}.value", f"{v}.identifier"}
+        if any(p_ in ident for p_ in parts):
+            return True
+        if f"{v}.__module__" in parts and f"{v}.__name__" in parts:
+            return True
+    return False
+
+
 def classify_use(ctx, fi: FuncInfo, e: ast.AST) -> tuple[str, str]:
     """('insensitive'|'sensitive'|'none', reason) for the syntactic context in which set expression e is consumed."""
     prog = ctx.prog
@@ -97,6 +114,12 @@ def classify_use(ctx, fi: FuncInfo, e: ast.AST) -> tuple[str, str]:
     if isinstance(p, ast.Call) and e in p.args:
         d = call_name(p)
         last = d.split(".")[-1]
+        if last == "sorted" and any(k.arg == "key" for k in p.keywords):
+            # sorted() is stable: elements with equal keys keep the order of the set, i.e. hash/address order. The key has
+            # to tell all elements apart.
+            key = next(k.value for k in p.keywords if k.arg == "key")
+            if not _key_is_injective(key):
+                return "sensitive", f"sorted(..., key={short(key, 60)}) over a set: the key does not tell the elements apart (ties keep the set's iteration order)"
         if last in INSENSITIVE_CONSUMERS or d in INSENSITIVE_CONSUMERS:
             return "insensitive", f"consumed by {d}()"
         if isinstance(p.func, ast.Attribute) and p.func.attr == "join":
